@@ -612,3 +612,44 @@ func (ws *Workspace) Reachable(root int) []int {
 	visit(root)
 	return order
 }
+
+// GenFileWithIncludes draws a journal for file index fi of an n-file workspace
+// whose include directives name an arbitrary subset of the files (self and
+// cycles allowed).
+func GenFileWithIncludes(t *rapid.T, p *Profile, pools *Pools, o JournalOpts, fi, n int) *m.Journal {
+	k := rapid.IntRange(0, 3).Draw(t, "nincludes")
+	var targets []int
+	for i := 0; i < k; i++ {
+		targets = append(targets, rapid.IntRange(0, n-1).Draw(t, "itarget"))
+	}
+	return GenFileIncluding(t, p, pools, o, fi, targets)
+}
+
+// GenFileIncluding draws a journal for file fi that includes exactly the given files, in that order.
+func GenFileIncluding(t *rapid.T, p *Profile, pools *Pools, o JournalOpts, fi int, targets []int) *m.Journal {
+	o.NoIncludes = true
+	j := GenJournal(t, p, pools, o)
+	at := 0
+	for _, target := range targets {
+		e := m.Entry{Dir: &m.Directive{Kind: "include", Path: relFrom(WSNames[fi], WSNames[target])}, Blank: rapid.IntRange(0, 1).Draw(t, "iblank")}
+		at = rapid.IntRange(at, len(j.Entries)).Draw(t, "iat")
+		j.Entries = append(j.Entries[:at:at], append([]m.Entry{e}, j.Entries[at:]...)...)
+		at++
+	}
+	return j
+}
+
+// IncludeTargets lists the file indices a journal of file fi includes, in textual order.
+func IncludeTargets(j *m.Journal, fi, n int) []int {
+	var out []int
+	for _, e := range j.Entries {
+		if e.Dir != nil && e.Dir.Kind == "include" {
+			for k := 0; k < n; k++ {
+				if relFrom(WSNames[fi], WSNames[k]) == e.Dir.Path {
+					out = append(out, k)
+				}
+			}
+		}
+	}
+	return out
+}
